@@ -18,6 +18,7 @@ func init() {
 		Explanation: "LOAD-FILTER: every file name reaching rawLoadFile from rawLoadPackage passed the `_test.go` suffix filter, the call passes checkBC = true, an excluded file yields an empty tree that is skipped, the constraint evaluator's tag predicate is exactly t == \"goat\" and a file without a //go:build line is included; more than one package clause is an error. LOAD-KAHN: the skeleton of Kahn's algorithm as checkable facts — (K1) for every import token the same unquoted path is pushed on the worklist and inserted into deps[pkg]; (K2) the selection of a package is preceded, in the selection loop, by the test that its dependency set is empty; (K3) on selection the package is deleted from packages, from deps and from every remaining dependency set, and nothing else deletes from those; (K4) exactly one tree is appended to the result per iteration; (K5) compilePkgs consumes the list in order and Load/Eval pass it unchanged. LOAD-CYCLE (shared with C03's selection-drain premise): when no package is selectable the loop returns an error instead of continuing with the zero key, and the candidate list shrinks every iteration (no panic, no spin on any graph). Given K1-K5, 'each package is emitted once, after all its imports' follows by induction on the loop (the facts are what is checked, the induction is stated). Not decided: that init functions run (FUNC; CALL by inspection), vendor/shortened-path search order.",
 		Quick: []ruleDef{
 			{"LOAD-FILTER", 6, ruleLoadFilter},
+			{"LOAD-IMPORTALL", 2, ruleLoadImportAll},
 			{"LOAD-KAHN", 6, ruleLoadKahn},
 			{"LOAD-CYCLE", 1, ruleLoadCycle},
 			{"LOAD-SORT", 3, ruleLoadSort},
@@ -30,6 +31,7 @@ func init() {
 		Quick: []ruleDef{
 			{"RELOAD-INPLACE", 8, ruleReloadInPlace},
 			{"RELOAD-TYPESLOT", 1, ruleReloadTypeSlot},
+			{"LOAD-CLEANPATH", 1, ruleLoadCleanPath},
 		},
 	})
 	register(&propDef{
@@ -1822,4 +1824,177 @@ func posCopyRule(c *Ctx, r *R) {
 	}
 	r.check(len(missing) == 0, "token.Copy copies every field", c.Pos(fd), "Pos, Symbol, Text and Tokens are all carried over",
 		"token.Copy does not carry over "+strings.Join(missing, ", ")+": the implicitly repeated specs of a const group (`A = f(iota); B; C`) are compiled from copies, so a failure in B's expression is reported as `main.f(...) :0:0` — no file, no line")
+}
+
+// LOAD-IMPORTALL: the loader builds the import graph from the children of the `import` nodes
+// and nothing else, so every path the parser reads in an import declaration reaches that node
+// — also one whose alias is `_` (a package imported for its initialisation only). Decided on
+// importNud and the new helpers it calls: each parsed path string is appended directly, or
+// held in a variable that is appended in the same block with no way out in between.
+func ruleLoadImportAll(c *Ctx, r *R) {
+	fd := c.Func("importNud")
+	if fd == nil {
+		r.undecided("importNud", "-", "not found")
+		return
+	}
+	n := 0
+	// importNud and the plain functions it calls directly
+	fns := []*ast.FuncDecl{fd}
+	ast.Inspect(fd.Body, func(m ast.Node) bool {
+		if call, ok := m.(*ast.CallExpr); ok {
+			if h := c.DeclOf(c.Callee(call)); h != nil && h.Body != nil && h.Recv == nil && h != fd {
+				dup := false
+				for _, f := range fns {
+					if f == h {
+						dup = true
+					}
+				}
+				if !dup {
+					fns = append(fns, h)
+				}
+			}
+		}
+		return true
+	})
+	for _, h := range fns {
+		ast.Inspect(h.Body, func(m ast.Node) bool {
+			call, ok := m.(*ast.CallExpr)
+			if !ok || c.CalleeName(call) != "parser.Advance" || len(call.Args) != 1 {
+				return true
+			}
+			if v, ok := c.ConstString(call.Args[0]); !ok || v != "(string)" {
+				return true
+			}
+			n++
+			key := fmt.Sprintf("%s path #%d", h.Name.Name, n)
+			// appended directly
+			if pc, ok := c.Parent(call).(*ast.CallExpr); ok && c.CalleeName(pc) == "token.Append" {
+				r.ok(key, "appended to the import node as it is read")
+				return true
+			}
+			// or bound to a variable
+			var blk *ast.BlockStmt
+			var at ast.Stmt
+			var obj types.Object
+			for p := c.Parent(call); p != nil; p = c.Parent(p) {
+				if as, ok := p.(*ast.AssignStmt); ok && at == nil {
+					at = as
+					for i, rh := range as.Rhs {
+						if unparen(rh) == ast.Expr(call) && i < len(as.Lhs) {
+							if id, ok := as.Lhs[i].(*ast.Ident); ok {
+								obj = c.Obj(id)
+							}
+						}
+					}
+				}
+				if b, ok := p.(*ast.BlockStmt); ok && at != nil {
+					blk = b
+					break
+				}
+			}
+			good := false
+			why := "the path read is neither appended nor bound to a variable"
+			if blk != nil && obj != nil {
+				why = "the path is read into " + obj.Name() + " but not appended unconditionally afterwards"
+				after := false
+				for _, st := range blk.List {
+					if st == at {
+						after = true
+						continue
+					}
+					if !after {
+						continue
+					}
+					// a way out before the append (continue / break / return / goto, at any depth)
+					escapes := false
+					ast.Inspect(st, func(q ast.Node) bool {
+						switch q.(type) {
+						case *ast.BranchStmt, *ast.ReturnStmt:
+							escapes = true
+						}
+						return true
+					})
+					if es, ok := st.(*ast.ExprStmt); ok {
+						if ac, ok := unparen(es.X).(*ast.CallExpr); ok && c.CalleeName(ac) == "token.Append" && len(ac.Args) == 1 {
+							if id, ok := unparen(ac.Args[0]).(*ast.Ident); ok && c.Obj(id) == obj {
+								good = true
+								break
+							}
+						}
+					}
+					if escapes {
+						why = "between reading the path into " + obj.Name() + " and appending it there is a way out (" + c.Pos(st) + ")"
+						break
+					}
+				}
+			}
+			r.check(good, key, c.Pos(call), "every import path read reaches the import node",
+				"importNud drops an import it has parsed ("+why+"): the loader builds the import graph from the import node's children only, so e.g. a package imported as `_ \"codec\"` for its init is never loaded, ordered or run, and no error is reported")
+			return true
+		})
+	}
+	if n == 0 {
+		r.undecided("importNud", c.Pos(fd), "no path string is read")
+	}
+}
+
+// LOAD-CLEANPATH: the name a package is loaded (and re-loaded) under is the cleaned,
+// slash-separated path: "./rules" and "rules" are one package. VM.Load normalises its argument
+// with filepath.Clean before anything uses it; otherwise a reload through a differently spelled
+// path registers every global a second time (./rules.X next to rules.X) and nothing is
+// replaced in place.
+func ruleLoadCleanPath(c *Ctx, r *R) {
+	fd := c.Func("VM.Load")
+	if fd == nil || fd.Type.Params.NumFields() < 2 {
+		r.undecided("VM.Load", "-", "not found")
+		return
+	}
+	// the path parameter: the first string parameter
+	var arg types.Object
+	for _, f := range fd.Type.Params.List {
+		for _, nm := range f.Names {
+			if b, ok := c.Info.Defs[nm].Type().Underlying().(*types.Basic); ok && b.Kind() == types.String && arg == nil {
+				arg = c.Info.Defs[nm]
+			}
+		}
+	}
+	if arg == nil {
+		r.undecided("VM.Load", c.Pos(fd), "no string parameter")
+		return
+	}
+	cleaned := false
+	firstUse := token.NoPos
+	cleanAt := token.NoPos
+	ast.Inspect(fd.Body, func(n ast.Node) bool {
+		switch x := n.(type) {
+		case *ast.CallExpr:
+			nm := c.CalleeName(x)
+			if nm == "path/filepath.Clean" || nm == "path.Clean" || nm == "filepath.Clean" {
+				for _, a := range x.Args {
+					if id, ok := unparen(a).(*ast.Ident); ok && c.Obj(id) == arg {
+						cleaned = true
+						if !cleanAt.IsValid() {
+							cleanAt = x.Pos()
+						}
+					}
+				}
+			}
+		case *ast.Ident:
+			if c.Obj(x) == arg && !firstUse.IsValid() && c.Info.Uses[x] != nil {
+				if as, ok := c.Parent(x).(*ast.AssignStmt); ok {
+					for _, l := range as.Lhs {
+						if l == ast.Expr(x) {
+							return true // being assigned, not read
+						}
+					}
+				}
+				firstUse = x.Pos()
+			}
+		}
+		return true
+	})
+	// the first read of the parameter is the normalisation itself
+	okOrder := cleaned && firstUse.IsValid() && cleanAt.IsValid() && firstUse >= cleanAt && firstUse <= cleanAt+token.Pos(40)
+	r.check(cleaned && okOrder, "Load cleans its path", c.Pos(fd), "the package path is normalised with filepath.Clean before it is used",
+		"VM.Load no longer normalises the package path with filepath.Clean before using it: Load(fs, \"./rules\") registers the package's globals as ./rules.X beside the live rules.X, so a reload replaces nothing in place — captured functions keep running the old code and variables are not reinitialised, without any error")
 }
